@@ -4,10 +4,10 @@
 import glob, json, os, subprocess, sys
 from concurrent.futures import ThreadPoolExecutor
 todo = []
-for d in sorted(glob.glob('/tmp/seed_C*/change*') + glob.glob('/tmp/seed2_C*/change*') + glob.glob('/tmp/seed3_C*/change*')):
+for d in sorted(glob.glob('/tmp/seed_C*/change*') + glob.glob('/tmp/seed2_C*/change*') + glob.glob('/tmp/seed3_C*/change*') + glob.glob('/tmp/seed4_C*/change*')):
     if os.path.exists(d + '/meta.json') and os.path.exists(d + '/patch.diff') and os.path.exists(d + '/demo.py') and not os.path.exists(d + '/result.json'):
         prop = d.split('/')[2].split('_')[1]
-        rnd = {'seed': 0, 'seed2': 2, 'seed3': 4}[d.split('/')[2].split('_')[0]]
+        rnd = {'seed': 0, 'seed2': 2, 'seed3': 4, 'seed4': 6}[d.split('/')[2].split('_')[0]]
         todo.append((prop, d, f'{prop}_{int(d[-1]) + rnd}'))
 def run(t):
     prop, d, name = t
